@@ -1,7 +1,7 @@
 SPECIFICATION Spec
 CONSTANTS Kinds = {"lr", "glr", "slr", "lrrec", "glrrec", "lrld0", "glrld1"}
   FailKinds = {"conflict"}
-  Inputs = {"ok", "bad", "act", "rec", "recerr", "kw", "empty"}
+  Inputs = {"ok", "bad", "act", "rec", "recerr", "kw", "empty", "rec2", "rec3"}
   MaxSteps = 7
 INVARIANT AugRestored
 INVARIANT Emit
